@@ -48,6 +48,7 @@ Definition v_terr (e : option terr) : val :=
       | Some TSizeMismatch => "sizemismatch"
       | Some TOffsetImpossible => "offsetimpossible"
       | Some TWalk | Some TIndex => "other"
+      | Some TPanic => "panic"
       end)%string.
 Definition v_okerr (ok : bool) : val := VT (if ok then "nil" else "other")%string.
 
@@ -104,7 +105,7 @@ Definition run_trav (i : val) : val :=
     | None => VL [VT "ctor"; VT "other"]
     | Some w =>
       let s := split_index (w_bytes w) in
-      VL [VT "ok"; VB (fst s); idx_obs (snd s) (in_store i) (in_ties i); VN (w_n w); v_terr (w_err w)]
+      VL [VT "ok"; VB (fst s); idx_obs (snd s) (in_store i) (in_ties i); VN (match w_err w with Some TPanic => 0 | _ => w_n w end); v_terr (w_err w)]
     end
   else if api =? 2 then
     match traverse_to_file id_order (in_root i) (in_opts i) (in_trace 0 i) with
